@@ -29,12 +29,13 @@ pub fn liveness_violation(s: &Session, h: &History) -> Option<Violation> {
                 }
             }
         }
-        if h.main_final == "Parked@idle" && h.unread_input > 0 && in_flight >= s.concurrency {
+        // (the request that waits for a permit has been read already, so the input may be empty)
+        if h.main_final == "Parked@idle" && in_flight >= s.concurrency {
             return Some(Violation {
                 oracle: "liveness.main_loop_keeps_reading".into(),
                 kinds: vec!["requests_in_flight_reach_concurrency_limit".into()],
                 detail: format!(
-                    "{in_flight} requests are in flight with a concurrency limit of {}; the main loop sits idle, never reads the remaining {} bytes of input and answers nothing any more ({d})",
+                    "{in_flight} requests are in flight with a concurrency limit of {}; the main loop sits idle, reads no further input ({} bytes unread) and answers nothing any more ({d})",
                     s.concurrency, h.unread_input
                 ),
             });
